@@ -626,7 +626,8 @@ CONC_MODELS = {
     "exec": ("MCExecProto", ["exec_q1", "exec_q2", "exec_q3", "exec_q4"], ["exec_t1"], ["exec_enum1", "exec_sim1", "exec_sim2"],
              ["exec_var_swap"]),
     "signal": ("MCSignalProto", ["sig_q1", "sig_q2", "sig_q6"], [], ["sig_enum3", "sig_sim1"], ["sig_var_coalesce"]),
-    "blockon": ("MCSignalProto", ["sig_q3", "sig_q4", "sig_q5"], [], ["sig_enum1", "sig_enum2", "sig_sim3"], ["sig_var_swap", "sig_var_notify"]),
+    "blockon": ("MCSignalProto", ["sig_q3", "sig_q4", "sig_q5", "sig_q7", "sig_q8"], [], ["sig_enum1", "sig_enum2", "sig_enum5", "sig_enum6", "sig_sim3"],
+                ["sig_var_swap", "sig_var_notify", "sig_var_pollstop"]),
     "chan": ("MCChanProto", ["chan_q1", "chan_q2", "chan_q3", "chan_q4"], ["chan_t1", "chan_t2", "chan_t3"], ["chan_enum1", "chan_sim1", "chan_sim2"],
              ["chan_var_wake", "chan_var_rearm", "chan_var_droporder", "chan_kf_rendezvous"]),
     "ping": ("MCPingProto", ["ping_q1", "ping_q2", "ping_q3"], ["ping_t1", "ping_t2"], ["ping_enum1", "ping_sim"],
